@@ -25,7 +25,9 @@ RULE = ("random source programs (5-40 statements) over the classical, array and 
         "array indices and slice bounds, bracketed arguments, # DEFINE macros incl. keys that are prefixes of one "
         "another, comments and blank lines; both front ends (text parser, IR assemble_subroutine). Each program is "
         "assembled by the repo, checked structurally, then executed on the real Executor after a seeding subroutine "
-        "that defines all 16 R registers, and compared with R-INTERP on the source. Non-trivial = the reference run "
+        "that defines all 16 R registers, and compared with R-INTERP on the source."
+        ' Text sources also use zero-padded literals, register indices and addresses; IR sources are built whole, grown in place with commands.append, or grown by re-assigning commands. '
+        "Non-trivial = the reference run "
         "executed >= 6 source instructions, the program contains >= 1 literal that needs a scratch register and >= 1 "
         "label; distinct = distinct program text / IR description.")
 ASSUMPTIONS = [
